@@ -6,124 +6,7 @@ verus! {
 
 global size_of usize == 8;
 
-// ---- specification (from the property statement, not from the code) -------
-
-/// `a` is a power of two representable in 64 bits.
-pub open spec fn is_pow2(a: int) -> bool {
-    a == 0x1 || a == 0x2 || a == 0x4 || a == 0x8 || a == 0x10 || a == 0x20 || a == 0x40 || a == 0x80
-    || a == 0x100 || a == 0x200 || a == 0x400 || a == 0x800 || a == 0x1000 || a == 0x2000 || a == 0x4000 || a == 0x8000
-    || a == 0x1_0000 || a == 0x2_0000 || a == 0x4_0000 || a == 0x8_0000 || a == 0x10_0000 || a == 0x20_0000 || a == 0x40_0000 || a == 0x80_0000
-    || a == 0x100_0000 || a == 0x200_0000 || a == 0x400_0000 || a == 0x800_0000 || a == 0x1000_0000 || a == 0x2000_0000 || a == 0x4000_0000 || a == 0x8000_0000
-    || a == 0x1_0000_0000 || a == 0x2_0000_0000 || a == 0x4_0000_0000 || a == 0x8_0000_0000
-    || a == 0x10_0000_0000 || a == 0x20_0000_0000 || a == 0x40_0000_0000 || a == 0x80_0000_0000
-    || a == 0x100_0000_0000 || a == 0x200_0000_0000 || a == 0x400_0000_0000 || a == 0x800_0000_0000
-    || a == 0x1000_0000_0000 || a == 0x2000_0000_0000 || a == 0x4000_0000_0000 || a == 0x8000_0000_0000
-    || a == 0x1_0000_0000_0000 || a == 0x2_0000_0000_0000 || a == 0x4_0000_0000_0000 || a == 0x8_0000_0000_0000
-    || a == 0x10_0000_0000_0000 || a == 0x20_0000_0000_0000 || a == 0x40_0000_0000_0000 || a == 0x80_0000_0000_0000
-    || a == 0x100_0000_0000_0000 || a == 0x200_0000_0000_0000 || a == 0x400_0000_0000_0000 || a == 0x800_0000_0000_0000
-    || a == 0x1000_0000_0000_0000 || a == 0x2000_0000_0000_0000 || a == 0x4000_0000_0000_0000 || a == 0x8000_0000_0000_0000
-}
-
-/// The gap the format prescribes before a block with unit `a` at offset `v`:
-/// the smallest g >= 0 with (v + g) a multiple of a.
-pub open spec fn pad_spec(v: int, a: int) -> int {
-    (a - v % a) % a
-}
-pub open spec fn completes(v: int, g: int, a: int) -> bool {
-    (v + g) % a == 0
-}
-
-/// std: two's complement negation.
-pub assume_specification[ usize::wrapping_neg ](x: usize) -> (r: usize)
-    ensures r as int == (if x == 0 { 0int } else { 0x1_0000_0000_0000_0000int - x as int });
-
-// ---- lemmas ----------------------------------------------------------------
-
-proof fn lemma_pow2_bits(a: u64)
-    requires is_pow2(a as int),
-    ensures a != 0, a & sub(a, 1) == 0,
-{
-    assert(a != 0 && a & sub(a, 1) == 0) by (bit_vector)
-        requires
-    a == 0x1 || a == 0x2 || a == 0x4 || a == 0x8 || a == 0x10 || a == 0x20 || a == 0x40 || a == 0x80
-    || a == 0x100 || a == 0x200 || a == 0x400 || a == 0x800 || a == 0x1000 || a == 0x2000 || a == 0x4000 || a == 0x8000
-    || a == 0x1_0000 || a == 0x2_0000 || a == 0x4_0000 || a == 0x8_0000 || a == 0x10_0000 || a == 0x20_0000 || a == 0x40_0000 || a == 0x80_0000
-    || a == 0x100_0000 || a == 0x200_0000 || a == 0x400_0000 || a == 0x800_0000 || a == 0x1000_0000 || a == 0x2000_0000 || a == 0x4000_0000 || a == 0x8000_0000
-    || a == 0x1_0000_0000 || a == 0x2_0000_0000 || a == 0x4_0000_0000 || a == 0x8_0000_0000
-    || a == 0x10_0000_0000 || a == 0x20_0000_0000 || a == 0x40_0000_0000 || a == 0x80_0000_0000
-    || a == 0x100_0000_0000 || a == 0x200_0000_0000 || a == 0x400_0000_0000 || a == 0x800_0000_0000
-    || a == 0x1000_0000_0000 || a == 0x2000_0000_0000 || a == 0x4000_0000_0000 || a == 0x8000_0000_0000
-    || a == 0x1_0000_0000_0000 || a == 0x2_0000_0000_0000 || a == 0x4_0000_0000_0000 || a == 0x8_0000_0000_0000
-    || a == 0x10_0000_0000_0000 || a == 0x20_0000_0000_0000 || a == 0x40_0000_0000_0000 || a == 0x80_0000_0000_0000
-    || a == 0x100_0000_0000_0000 || a == 0x200_0000_0000_0000 || a == 0x400_0000_0000_0000 || a == 0x800_0000_0000_0000
-    || a == 0x1000_0000_0000_0000 || a == 0x2000_0000_0000_0000 || a == 0x4000_0000_0000_0000 || a == 0x8000_0000_0000_0000;
-}
-
-/// bit level: the masked negation is below the unit and completes `v` to a
-/// multiple of the unit (wrapping addition, mask instead of remainder)
-proof fn lemma_pad_bits(v: u64, a: u64, neg: u64)
-    requires a != 0, a & sub(a, 1) == 0, neg == sub(0, v),
-    ensures (neg & sub(a, 1)) < a, (add(v, neg & sub(a, 1)) & sub(a, 1)) == 0,
-{
-    assert((neg & sub(a, 1)) < a && (add(v, neg & sub(a, 1)) & sub(a, 1)) == 0) by (bit_vector)
-        requires a != 0, a & sub(a, 1) == 0, neg == sub(0, v);
-}
-
-/// for a power-of-two unit the mask is the remainder
-proof fn lemma_mask_is_mod(x: u64, a: u64)
-    requires a != 0, a & sub(a, 1) == 0,
-    ensures x & sub(a, 1) == x % a,
-{
-    assert(x & sub(a, 1) == x % a) by (bit_vector)
-        requires a != 0, a & sub(a, 1) == 0;
-}
-
-/// arithmetic: a gap below the unit that completes v to a multiple is pad_spec
-proof fn lemma_gap_unique(v: int, a: int, r: int)
-    requires a > 0, v >= 0, 0 <= r < a, (v + r) % a == 0,
-    ensures r == pad_spec(v, a),
-{
-    let m = v % a;
-    assert(0 <= m < a) by (nonlinear_arith) requires a > 0, m == v % a;
-    assert((m + r) % a == 0) by (nonlinear_arith)
-        requires a > 0, m == v % a, (v + r) % a == 0;
-    if m + r < a {
-        assert(m + r == 0) by (nonlinear_arith) requires 0 <= m + r < a, (m + r) % a == 0, a > 0;
-        assert((a - 0) % a == 0) by (nonlinear_arith) requires a > 0;
-    } else {
-        assert(m + r == a) by (nonlinear_arith) requires a <= m + r < 2 * a, (m + r) % a == 0, a > 0;
-        assert((a - m) % a == a - m) by (nonlinear_arith) requires 0 < a - m < a;
-    }
-}
-
-/// pad_spec is what the statement says: below the unit, completes to a
-/// multiple, and no smaller gap does.
-pub proof fn lemma_pad_spec_minimal(v: int, a: int)
-    requires a > 0, v >= 0,
-    ensures 0 <= pad_spec(v, a) < a,
-            (v + pad_spec(v, a)) % a == 0,
-            forall|g: int| 0 <= g < pad_spec(v, a) ==> !#[trigger] completes(v, g, a),
-{
-    let m = v % a;
-    let p = pad_spec(v, a);
-    assert(0 <= m < a) by (nonlinear_arith) requires a > 0, m == v % a;
-    assert(0 <= p < a) by (nonlinear_arith) requires a > 0, p == (a - m) % a;
-    if m == 0 {
-        assert(p == 0) by (nonlinear_arith) requires p == (a - 0) % a, a > 0;
-    } else {
-        assert(p == a - m) by (nonlinear_arith) requires p == (a - m) % a, 0 < a - m < a;
-        vstd::arithmetic::div_mod::lemma_fundamental_div_mod(v, a);
-        let q = v / a;
-        assert(v + (a - m) == a * (q + 1)) by (nonlinear_arith) requires v == a * q + m;
-        vstd::arithmetic::div_mod::lemma_mod_multiples_basic(q + 1, a);
-        assert((a * (q + 1)) % a == 0) by (nonlinear_arith) requires ((q + 1) * a) % a == 0;
-    }
-    assert forall|g: int| 0 <= g < p implies !#[trigger] completes(v, g, a) by {
-        if (v + g) % a == 0 {
-            lemma_gap_unique(v, a, g);
-        }
-    }
-}
+//@include inc/pad_spec.rs
 
 // ---- the real function -----------------------------------------------------
 
@@ -132,7 +15,7 @@ pub proof fn lemma_pad_spec_minimal(v: int, a: int)
 //@  spec
 //@|    requires is_pow2(align_to as int),
 //@|    ensures r < align_to,
-//@|            value as int + r as int <= usize::MAX as int ==> r as int == pad_spec(value as int, align_to as int),
+//@|            r as int == pad_spec(value as int, align_to as int),
 //@  body_prefix
 //@|    proof {
 //@|        let v = value as u64; let a = align_to as u64;
@@ -146,6 +29,14 @@ pub proof fn lemma_pad_spec_minimal(v: int, a: int)
 //@|        assert(sub(a, 1) == (align_to - 1) as u64) by (bit_vector) requires a != 0, a == align_to as u64; 
 //@|        if value as int + r0 as int <= usize::MAX as int {
 //@|            assert(add(v, r0) == v + r0);
+//@|            lemma_gap_unique(value as int, align_to as int, r0 as int);
+//@|        } else {
+//@|            // the sum wraps: it is exactly 2^64, itself a multiple of the unit
+//@|            let w = add(v, r0);
+//@|            assert(w as int == v as int + r0 as int - 0x1_0000_0000_0000_0000int) by (bit_vector)
+//@|                requires w == add(v, r0), v as int + r0 as int > 0xffff_ffff_ffff_ffffint;
+//@|            lemma_pow2_divides_2_64(align_to as int);
+//@|            lemma_mod_shift(w as int, 0x1_0000_0000_0000_0000int, align_to as int);
 //@|            lemma_gap_unique(value as int, align_to as int, r0 as int);
 //@|        }
 //@|    }
